@@ -363,7 +363,9 @@ NOINST void mon_report_edges(void) {
 	}
 	snprintf(buf + k, cap - k, "]");
 	__real_pthread_mutex_unlock(&mon_mx);
+	extern atomic_long mon_container_accesses, mon_containers_shared;
 	ev("\"e\":\"edges\",\"edges\":%s,\"rec_rd\":%ld,\"lock_ops\":%ld,\"contract_checks\":%ld,\"contract_viol\":%ld", buf, rec_rd_cnt, (long)mon_lock_ops, (long)mon_contract_checks, (long)mon_contract_viol);
+	ev("\"e\":\"containers\",\"accesses\":%ld,\"shared\":%ld", (long)mon_container_accesses, (long)mon_containers_shared);
 	free(buf);
 }
 NOINST int mon_receiver_blocked_by_me(void) {
@@ -561,6 +563,69 @@ NOINST void mon_report_contracts(void) {
 	snprintf(buf + k, sizeof buf - k, "}");
 	ev("\"e\":\"contracts\",\"total\":%d,\"reached\":%d,\"hits\":%s", hx_contract_count, reached, buf);
 }
+
+
+/* ------------------------------------------------------------------ container lockset monitor (Eraser over glib containers)
+ * glib is not instrumented, so ThreadSanitizer cannot see accesses made inside it. Every glib call the LIBRARY makes on a queue, hash
+ * table or array is interposed; per container the candidate lockset is the intersection of the locks held at each access while the
+ * library is running (write accesses count only locks held exclusively). A container touched by two threads whose candidate set
+ * becomes empty is reported once. */
+#include <glib.h>
+#define MAXCONT 4096
+typedef struct { void *p; uint64_t ls_any, ls_excl; int first_tid, multi, reported, writes; long nacc; } cont_t;
+static cont_t conts[MAXCONT];
+atomic_long mon_container_accesses = 0, mon_containers_shared = 0;
+NOINST static cont_t *cont_find(void *p, int create) {
+	size_t h = ((uintptr_t)p >> 4) % MAXCONT;
+	for (int k = 0; k < MAXCONT; k++) {
+		cont_t *c = &conts[(h + k) % MAXCONT];
+		if (c->p == p) return c;
+		if (!c->p) { if (!create) return NULL; c->p = p; c->ls_any = c->ls_excl = ~0ULL; c->first_tid = -1; c->multi = c->reported = c->writes = 0; c->nacc = 0; return c; }
+	}
+	return NULL;
+}
+NOINST static void cont_reset(void *p) {
+	__real_pthread_mutex_lock(&mon_mx);
+	cont_t *c = cont_find(p, 0);
+	if (c) { c->ls_any = c->ls_excl = ~0ULL; c->first_tid = -1; c->multi = c->reported = c->writes = 0; c->nacc = 0; }
+	__real_pthread_mutex_unlock(&mon_mx);
+}
+NOINST static void cont_access(void *p, int is_write, const char *what) {
+	if (!p || !mon_armed || hx_role == ROLE_HARNESS) return;
+	thr_t *t = self();
+	uint64_t any = 0, excl = 0;
+	for (int i = 0; i < t->nheld; i++) { any |= 1ULL << t->held[i].li; if (t->held[i].mode != 1) excl |= 1ULL << t->held[i].li; }
+	int report = 0; char d[512];
+	__real_pthread_mutex_lock(&mon_mx);
+	cont_t *c = cont_find(p, 1);
+	if (c) {
+		c->nacc++;
+		if (c->first_tid < 0) c->first_tid = hx_tid; else if (c->first_tid != hx_tid && !c->multi) { c->multi = 1; atomic_fetch_add(&mon_containers_shared, 1); }
+		c->ls_any &= any; c->ls_excl &= excl;
+		if (is_write) c->writes++;
+		/* a data race needs a write: readers must share a lock with the writers (any mode), writers need an exclusively held one */
+		if (c->multi && c->writes && !c->reported && (c->ls_any == 0 || (is_write && c->ls_excl == 0 && c->ls_any == 0))) { c->reported = 1; report = 1; }
+	}
+	__real_pthread_mutex_unlock(&mon_mx);
+	atomic_fetch_add(&mon_container_accesses, 1);
+	if (report) { mon_held_describe(d, sizeof d); hx_violation("container-lockset", "%s on a container shared between threads with no common lock (held now: [%s]; api call %s)", what, d, hx_curcall); }
+}
+#define W(ret, name, params, args, cont, wr) ret __real_##name params; NOINST ret __wrap_##name params { cont_access((void *)(cont), wr, #name); return __real_##name args; }
+#define WV(name, params, args, cont, wr) void __real_##name params; NOINST void __wrap_##name params { cont_access((void *)(cont), wr, #name); __real_##name args; }
+WV(g_queue_push_tail, (GQueue *q, gpointer d), (q, d), q, 1)
+W(gpointer, g_queue_pop_head, (GQueue *q), (q), q, 1)
+W(gpointer, g_queue_peek_head, (GQueue *q), (q), q, 0)
+W(gboolean, g_queue_is_empty, (GQueue *q), (q), q, 0)
+W(guint, g_queue_get_length, (GQueue *q), (q), q, 0)
+W(GList *, g_queue_find_custom, (GQueue *q, gconstpointer d, GCompareFunc f), (q, d, f), q, 0)
+W(gpointer, g_hash_table_lookup, (GHashTable *h, gconstpointer k), (h, k), h, 0)
+W(gboolean, g_hash_table_insert, (GHashTable *h, gpointer k, gpointer v), (h, k, v), h, 1)
+W(GArray *, g_array_append_vals, (GArray *a, gconstpointer d, guint n), (a, d, n), a, 1)
+W(GArray *, g_array_remove_range, (GArray *a, guint i, guint n), (a, i, n), a, 1)
+void __real_g_queue_free(GQueue *q); NOINST void __wrap_g_queue_free(GQueue *q) { cont_reset(q); __real_g_queue_free(q); }
+void __real_g_hash_table_destroy(GHashTable *h); NOINST void __wrap_g_hash_table_destroy(GHashTable *h) { cont_reset(h); __real_g_hash_table_destroy(h); }
+gchar *__real_g_array_free(GArray *a, gboolean f); NOINST gchar *__wrap_g_array_free(GArray *a, gboolean f) { cont_reset(a); return __real_g_array_free(a, f); }
+GQueue *__real_g_queue_new(void); NOINST GQueue *__wrap_g_queue_new(void) { GQueue *q = __real_g_queue_new(); cont_reset(q); return q; }
 
 NOINST void mon_init(uint64_t seed) {
 	static int once = 0;
